@@ -30,7 +30,7 @@ main(void)
 	unsigned kt0 = ND_U8();
 	int err0 = ND_INT();
 #ifdef NATIVE_REPLAY
-	memset(c, 0, sizeof *c);
+	NATIVE_FILL(c, sizeof *c);
 #endif
 	T0F_DEPTH_AT(8);
 	d0 = t0n_dpi;
